@@ -39,11 +39,11 @@ Lemma keeps_refl s E : keeps s s E.
 Proof. intros j dj _ H. exists dj. split; [exact H|apply same_text_refl]. Qed.
 
 (* what EnsureAlloced(amount, true) guarantees: the variable owns, exclusively, storage of at
-   least [amount] bytes with the old length; the old text is there if it held no 0 byte *)
+   least [amount] bytes with the old length and the old text (0 bytes included) *)
 Definition owns (s' : st) (v : N) (id : N) (d : sdata) (l : list N) (amount : nat) : Prop :=
   get (vars s') v = Some id /\ get (heap s') id = Some d /\ refc d = 0 /\
   alloced d = length (buf d) /\ amount <= length (buf d) /\ dlen d = length l /\
-  (nz l -> exists rest, buf d = l ++ 0%N :: rest).
+  (exists rest, buf d = l ++ 0%N :: rest).
 
 (* ---- EnsureAlloced (keepold = true) ------------------------------------------------------ *)
 
@@ -55,13 +55,16 @@ Proof.
   intros HG Hd Hg Hamt.
   assert (Hfresh : get (heap s) (nxt s) = None) by (apply (g_fresh _ _ _ _ _ _ HG); lia).
   assert (Hne : nxt s <> id) by (intro E'; rewrite E' in Hfresh; congruence).
-  pose proof (good_room _ _ Hg) as Hroom. pose proof (clit_length l) as Hcl.
-  unfold realloc. rewrite (good_text _ _ Hg). cbn [ov bind].
-  assert (Hw : write_at (repeat poison amt) 0 (clit l ++ [0%N]) =
-               Some ((clit l ++ [0%N]) ++ skipn (length (clit l ++ [0%N])) (repeat poison amt))).
+  pose proof (good_room _ _ Hg) as Hroom.
+  unfold realloc.
+  assert (Hrd : read_n (buf d) (dlen d + 1) = Some (l ++ [0%N])).
+  { destruct Hg as [[rest0 [Hb0 _]] Hl0]. rewrite Hb0, Hl0. apply read_n_text. }
+  rewrite Hrd. cbn [ov bind].
+  assert (Hw : write_at (repeat poison amt) 0 (l ++ [0%N]) =
+               Some ((l ++ [0%N]) ++ skipn (length (l ++ [0%N])) (repeat poison amt))).
   { apply write_at_0. rewrite app_length, repeat_length. cbn. lia. }
   rewrite Hw. cbn [ov bind].
-  set (nb := (clit l ++ [0%N]) ++ skipn (length (clit l ++ [0%N])) (repeat poison amt)).
+  set (nb := (l ++ [0%N]) ++ skipn (length (l ++ [0%N])) (repeat poison amt)).
   set (D := mkD 0 amt (dlen d) nb).
   assert (HG1 : InvG nv (new_data s D) a h (Some v) (id :: nxt s :: E)).
   { apply InvG_perm with (e := nxt s :: id :: E); [apply perm_swap|]. apply P_new; [exact HG|reflexivity]. }
@@ -76,8 +79,8 @@ Proof.
     split; [cbn [set_var heap]; rewrite Hfr by exact Hne; cbn [new_data heap]; apply gss|].
     cbn [D refc alloced dlen buf]. rewrite Hlen.
     split; [reflexivity|]. split; [reflexivity|]. split; [lia|]. split; [apply Hg|].
-    intro Hnz. exists (skipn (length (clit l ++ [0%N])) (repeat poison amt)).
-    unfold nb. rewrite (clit_nz _ Hnz). rewrite <- app_assoc. reflexivity.
+    exists (skipn (length (l ++ [0%N])) (repeat poison amt)).
+    unfold nb. rewrite <- app_assoc. reflexivity.
   - intros j dj Hin Hj. cbn [set_var heap].
     assert (Hjn : j <> nxt s) by (intro E'; subst j; congruence).
     destruct (N.eq_dec j id) as [->|Hji].
@@ -110,7 +113,7 @@ Proof.
     + destruct (Nat.leb_spec amount (alloced d)) as [Hle|Hgt].
       * exists s, id, d. split; [reflexivity|]. split; [exact HG|]. split; [|apply keeps_refl].
         destruct Hg as [[rest [Hb Ha]] Hl]. repeat split; auto; [lia|].
-        intros _. exists rest. exact Hb.
+        exists rest. exact Hb.
       * apply Hre; lia.
     + destruct (Nat.ltb_spec amount (alloced d)); apply Hre; lia.
   - cbn [vgood] in Hg. destruct Hg as [-> _]. cbn [olist app] in HG.
@@ -121,7 +124,7 @@ Proof.
       split; [cbn [set_var new_data heap]; apply gss|].
       cbn [refc alloced dlen buf length]. rewrite repeat_length.
       split; [reflexivity|]. split; [lia|]. split; [lia|]. split; [reflexivity|].
-      intros _. exists (repeat poison (amount - 1)). reflexivity.
+      exists (repeat poison (amount - 1)). reflexivity.
     + intros j dj Hin Hj. exists dj. split; [|apply same_text_refl].
       cbn [set_var new_data heap]. rewrite gso; [exact Hj|].
       intro E'. subst j. rewrite (g_fresh _ _ _ _ _ _ HG (nxt s)) in Hj by lia. discriminate.
@@ -131,11 +134,11 @@ Qed.
 
 Lemma ensure_writable_ok nv s a h v old d l :
   InvG nv s a h (Some v) [old] -> get (vars s) v = Some old -> get (heap s) old = Some d ->
-  good d l -> nz l ->
+  good d l ->
   exists s' id d', ensure_writable s v = Ok s' /\ InvG nv s' a h (Some v) [id] /\
     get (vars s') v = Some id /\ get (heap s') id = Some d' /\ good d' l /\ refc d' = 0.
 Proof.
-  intros HG Ev Hd Hg Hnz. unfold ensure_writable. rewrite Ev. unfold deref at 1. rewrite Hd. cbn [bind].
+  intros HG Ev Hd Hg. unfold ensure_writable. rewrite Ev. unfold deref at 1. rewrite Hd. cbn [bind].
   destruct (refc d) as [|r] eqn:Hr.
   - exists s, old, d. auto 10.
   - assert (Hlen : dlen d = length l) by apply Hg.
@@ -155,8 +158,10 @@ Proof.
     assert (Ho1 : get (heap s1) old = Some d)
       by (unfold s1; cbn [set_var new_data heap nxt]; rewrite gso by exact Hne; exact Hd).
     rewrite (with_data_some s1 v (nxt s) D _ Hv1 Hn1).
-    unfold deref. rewrite Ho1. cbn [bind]. rewrite (good_text _ _ Hg). cbn [ov bind].
-    rewrite (clit_nz _ Hnz). rewrite Hlen. rewrite firstn_snoc_all by lia.
+    unfold deref. rewrite Ho1. cbn [bind].
+    assert (Hrd : read_n (buf d) (dlen d + 1) = Some (l ++ [0%N])).
+    { destruct Hg as [[rest0 [Hb0 _]] Hl0]. rewrite Hb0, Hl0. apply read_n_text. }
+    rewrite Hrd. cbn [ov bind]. rewrite Hlen.
     assert (Hw : write_at (buf D) 0 (l ++ [0%N]) = Some (l ++ [0%N])).
     { rewrite write_at_0.
       - rewrite skipn_all2; [now rewrite app_nil_r|].
@@ -176,13 +181,13 @@ Proof.
       rewrite app_length. cbn. lia.
 Qed.
 
-(* an operation that first makes a string without 0 bytes, that has storage, writable *)
+(* an operation that first makes a string that has storage writable *)
 Lemma open_writable nv s a h v :
-  Inv nv s a h -> (v < N.of_nat nv)%N -> get h v = true -> nz (get a v) ->
+  Inv nv s a h -> (v < N.of_nat nv)%N -> get h v = true ->
   exists s' id d', ensure_writable s v = Ok s' /\ InvG nv s' a h (Some v) [id] /\
     get (vars s') v = Some id /\ get (heap s') id = Some d' /\ good d' (get a v) /\ refc d' = 0.
 Proof.
-  intros HI Hv Hh Hnz. destruct (P_open nv s a h v HI Hv) as [HG Hg].
+  intros HI Hv Hh. destruct (P_open nv s a h v HI Hv) as [HG Hg].
   destruct (get (vars s) v) as [old|] eqn:Ev; cbn [vgood olist] in *.
   - destruct Hg as [d [Hd Hg]]. eapply ensure_writable_ok; eauto.
   - destruct Hg as [_ Hb]. congruence.
@@ -190,11 +195,11 @@ Qed.
 
 (* the same for a string that is known to be non-empty (it then has storage) *)
 Lemma open_writable_nonempty nv s a h v :
-  Inv nv s a h -> (v < N.of_nat nv)%N -> get a v <> [] -> nz (get a v) ->
+  Inv nv s a h -> (v < N.of_nat nv)%N -> get a v <> [] ->
   exists s' id d', ensure_writable s v = Ok s' /\ InvG nv s' a h (Some v) [id] /\
     get (vars s') v = Some id /\ get (heap s') id = Some d' /\ good d' (get a v) /\ refc d' = 0.
 Proof.
-  intros HI Hv Hnn Hnz. destruct (P_open nv s a h v HI Hv) as [HG Hg].
+  intros HI Hv Hnn. destruct (P_open nv s a h v HI Hv) as [HG Hg].
   destruct (get (vars s) v) as [old|] eqn:Ev; cbn [vgood olist] in *.
   - destruct Hg as [d [Hd Hg]]. eapply ensure_writable_ok; eauto.
   - destruct Hg as [Hl _]. contradiction.
